@@ -37,7 +37,7 @@ func ruleC12_1(c *Ctx, r *Rep) {
 		}
 		r.Check("C12.1", "C12.1:"+k, s.Pos, ok, "name resolution restricted to live rows", "a "+s.Table+" row is looked up by name without `deleted_at IS NULL`: a deleted resource still resolves (Get succeeds / publish or pull reach a deleted resource / the name is not reusable)")
 	}
-	r.Floor("C12.1", n, 24)
+	r.Floor("C12.1", n, 18)
 }
 
 func sameConds(a, b []Cond) bool {
@@ -191,7 +191,7 @@ func ruleC12_3(c *Ctx, r *Rep) {
 		}
 		r.Check("C12.3", "C12.3:"+keys[s], s.Pos, ok, "soft delete = {deleted_at:set, live:clear}", msg)
 	}
-	r.Floor("C12.3", n, 5)
+	r.Floor("C12.3", n, 3)
 }
 
 func ruleC12_4(c *Ctx, r *Rep) {
@@ -1029,7 +1029,7 @@ func ruleC15_2(c *Ctx, r *Rep) {
 		}
 		r.Check("C15.2", "C15.2:ent:"+k, f.Pos, f.OnDelete == want, "ON DELETE "+want, "foreign key "+k+" → "+f.RefTable+" is ON DELETE "+f.OnDelete+" (expected "+want+"): a prune of the parent would cascade into / be blocked by live children")
 	}
-	r.Floor("C15.2:ent", len(fks), 7)
+	r.Floor("C15.2:ent", len(fks), 5)
 	sq, _, n := c.sqlSchema()
 	if n > 0 {
 		var ks []string
@@ -1046,7 +1046,7 @@ func ruleC15_2(c *Ctx, r *Rep) {
 			okA := f.OnDelete == want || (want == "NoAction" && f.OnDelete == "Restrict")
 			r.Check("C15.2", "C15.2:sql:"+k, token.NoPos, okA, "ON DELETE "+want+" ("+f.File+")", "SQL migration "+f.File+" leaves "+k+" ON DELETE "+f.OnDelete+" (expected "+want+")")
 		}
-		r.Floor("C15.2:sql", len(sq), 7)
+		r.Floor("C15.2:sql", len(sq), 5)
 	}
 }
 
@@ -1114,7 +1114,7 @@ func ruleC15_3(c *Ctx, r *Rep) {
 	for _, n := range names {
 		r.Check("C15.3", "C15.3:registered:"+n, token.NoPos, registered[n], "", "maintenance action "+n+" is not registered as a background service (services/prune-common.go:init): what it should reclaim is left behind forever")
 	}
-	r.Floor("C15.3", len(names), 7)
+	r.Floor("C15.3", len(names), 5)
 	r.Check("C15.3", "C15.3:registered:deadLetter", token.NoPos, dlRegistered, "", "the dead-letter sweep service is not registered")
 }
 
